@@ -127,6 +127,41 @@ class Spec(hist.Spec):
     def ref_key(self, d):
         return tuple(sorted(d.items()))
 
+    # observe / mutate / observe pass (hist.interleavings)
+    def probes(self):
+        return [["len"], ["iter"]] + [[k, q] for q in self.qurls for k in ("match", "match_lru_str")]
+
+    def apply(self, t, op):
+        (o, u, v) = op
+        if o == "set":
+            t.set(u, v)
+        elif o == "set_lru_raw":
+            t.set_lru(list(u), v)
+        elif o == "set_lru_str":
+            t.set_lru(refstems.serialize(refstems.stems(u, self.sa, psl())), v)
+        else:
+            t.set_lru(refstems.stems(u, self.sa, psl()), v)
+
+    def probe(self, t, p):
+        if p[0] == "len":
+            return list(core.call(len, t)[:2])
+        if p[0] == "iter":
+            return list(core.call(lambda: sorted(t))[:2])
+        if p[0] == "match":
+            return list(core.call(t.match, p[1])[:2])
+        return list(core.call(t.match_lru, refstems.serialize(refstems.stems(p[1], self.sa, psl())))[:2])
+
+    def ref_probe(self, d, p):
+        if p[0] == "len":
+            return ["ok", len(d)]
+        if p[0] == "iter":
+            return ["ok", sorted(d.values())]
+        k = self.key(p[1]) if p[0] == "match" else self.lru_key(p[1])
+        for l in range(len(k), -1, -1):
+            if k[:l] in d:
+                return ["ok", d[k[:l]]]
+        return ["ok", None]
+
     def check(self, t, d):
         fails = []
         n = 0
@@ -200,6 +235,8 @@ def make_spec(cls, sa, kwargs, kind, tier="quick"):
 
 
 def judge(w):
+    if "probe" in w:
+        return hist.judge_interleaved(Spec("replay", w["cls"], w["suffix_aware"], w["kwargs"], [], []), w["ops"], w["probe"], w["then"])
     q = w["query"]
     spec = Spec("replay", w["cls"], w["suffix_aware"], w["kwargs"], [], [q[1]] if len(q) > 1 and isinstance(q[1], str) else [])
     obj = spec.build_ops(w["ops"])
@@ -228,6 +265,12 @@ def run(chk):
             sp2 = make_spec(cls, sa, kwargs, "seq", chk.tier)
             sp2.warm()
             hist.sequences(sp2, chk, sp2.name, 2 if quick else 3)
+            sp3 = make_spec(cls, sa, kwargs, "closure", "quick")
+            sp3.qurls = sp3.qurls[::2]
+            sp3.warm()
+            hist.interleavings(sp3, chk, "interleaved-" + sp3.name, 1 if quick else 2)
+    chk.rule.append("Observe/mutate/observe: per configuration, after every history of length <= %d over the closure universe, every single query, "
+                    "then one further operation (or none), then the same query twice, each answer compared with the reference dict." % (1 if quick else 2))
     chk.cov["distinct_nontrivial"] = chk.cov["states"]
     chk.cov["bounds"] = {"closure": "complete", "L": 2 if quick else 3}
     for c in ("len", "iter", "match", "match_lru"):
